@@ -623,11 +623,13 @@ impl Engine for AdsrEngine {
 // ---------------------------------------------------------------------------------------------
 // generators
 
-const FS_SPECIALS: [f32; 10] = [100.0, 999.0, 1000.0, 1001.0, 8000.0, 22050.0, 44100.0, 48000.0, 96000.0, 192000.0];
+fn fs_specials() -> Vec<f32> {
+    COMMON_RATES.iter().copied().filter(|f| *f <= 192000.0).collect()
+}
 
 fn gen_fs(rng: &mut Rng) -> f32 {
     if rng.chance(0.5) {
-        *rng.pick(&FS_SPECIALS)
+        *rng.pick(&fs_specials())
     } else {
         rng.log_uniform(100.0, 192000.0) as f32
     }
@@ -882,7 +884,7 @@ fn chaos_run(rng: &mut Rng, _prof: &Profile, sink: &mut Sink<AdsrEngine>) {
     let fs = match rng.below(4) {
         0 => 100.0,
         1 => 192000.0,
-        2 => *rng.pick(&FS_SPECIALS),
+        2 => *rng.pick(&fs_specials()),
         _ => rng.log_uniform(100.0, 192000.0) as f32,
     };
     let finite_extreme = |rng: &mut Rng| -> f32 {
